@@ -94,7 +94,9 @@ P = {
          "post-buffer, picked up with the entry for that direction, delivered exactly when due; clause travel_gap_b also monitored "
          "on every implementation state, all instances); a job is delivered to the machine of its next operation - every job lying in "
          "a machine's pre-buffer has its first not-done operation there (C07_delivered_to_the_machine_of_the_next_operation_*, clause "
-         "pre_ok_b, SMP/Deliver.v); stored time dependencies are well-formed (C07_time_dependencies_wellformed_*, clause depi_b). " + TIE),
+         "pre_ok_b, SMP/Deliver.v); stored time dependencies are well-formed (C07_time_dependencies_wellformed_*, clause depi_b); the delivery "
+         "event clause ev_deliver (appended at the back of the route's destination, AGV empty/unclaimed/at the destination, blocked for the "
+         "longest sampled outage) holds of every micro-log entry of every run (C07_delivery_events_hold_along_every_run). " + TIE),
  "C08": ("SM", "Theorems (Props/C08.v): capacity_b (no buffer above its capacity) in every reachable state and micro-state (from WFS); "
          "insertion at the back is a post-state theorem (SMP/Post); discipline order: every applied -> TRANSIT either keeps the AGV waiting "
          "or takes the job at the release position (C08_agv_takes_only_the_released_job); a machine start created by the simulator "
